@@ -21,4 +21,34 @@ CLAIMED = {
              "loaded. Holds for all schedules because it is a property of every CFG path, not of sampled runs. Does not decide interleavings.",
         note="trusts the clang 14 front end/CFG, kernel futex semantics, and that only the Linux branch is compiled",
     ),
+    "C01": dict(
+        technique="ownership typestate (path-sensitive, finite-state) + dominance/reachability rules over clang CFGs of all ThreadPool functions",
+        text="Decides the ownership clause of exactly-once delivery on every CFG path: each OnceFunction / entry-point functor is run inline once or handed "
+             "to exactly one sink; failed try_push falls back; every popped task is run; enqueue failure is not dropped; bulk index advances by what was "
+             "handed on; the destructor drains every tier after the joins and to a fixpoint. All paths means all schedules for these local shapes. "
+             "Does not decide delivery inside the queues or interleavings.",
+        note="trusts clang CFG construction, moodycamel::ConcurrentQueue and MpmcRingBuffer (C34) delivery",
+    ),
+    "C04": dict(
+        technique="guard-dominance (branch-edge deletion) per loop iteration + who-may-write rule over clang CFGs",
+        text="Every site that starts a user body in task-set scheduling code and packaged tasks is dominated, in the same loop iteration, by a read of the "
+             "cancel flag that was false; the flag is written only by cancel()/captured exception/cascade constructor; cancel() cascades to children under "
+             "the list mutex; the cascade constructor registers before sampling the parent. Holds for all schedules because it is a property of every path.",
+        note="does not decide the value wait() returns; bodies that already passed their check may still run (as the property allows)",
+    ),
+    "C08": dict(
+        technique="must-pass-through pairing + finite-state balance analysis of the worker loop's batch counter over clang CFGs",
+        text="Every run of a dequeued task in a ThreadPool method is paired with its workRemaining_ decrement on every path (executeNext, or the worker "
+             "loop's batch counter whose {none,pending,flushed} states are explored exhaustively); every hand-over to a queue tier is dominated by the "
+             "matching increment; the bulk failure path undoes its increment. The destructor is exempt (the counter dies with the pool).",
+        note="decides pairing, not the numeric value at quiescence",
+    ),
+    "C45": dict(
+        category="proof",
+        technique="who-may-write + guard-dominance + resolved-declaration facts (thread-local vs namespace-scope atomic) from the clang AST",
+        text="Four structural obligations that together imply the property up to 2^64 first calls: the returned value is read from a thread-local cache; "
+             "every write to that cache in the program is in threadId() under the 'still unassigned' test; the written value is fetch_add(k>=1) on a "
+             "non-thread-local std::atomic; nothing else modifies that counter.",
+        note="assumes fewer than 2^64 - 1 first calls; trusts std::atomic RMW atomicity",
+    ),
 }
